@@ -25,7 +25,19 @@ template <typename C> static std::string text_of(C const& c)
 }
 
 #ifdef VT_REAL_MPI
+static long real_seq = 0;
 static int my_rank() { int r = 0; MPI_Comm_rank(MPI_COMM_WORLD, &r); return r; }
+// profiling interface: every collective the library issues is logged (entry and exit) and forwarded
+extern "C" int MPI_Allreduce(void const* s, void* r, int count, MPI_Datatype t, MPI_Op op, MPI_Comm c)
+{
+    ++real_seq;
+    long seq = real_seq;
+    int code = t == MPI_FLOAT ? 1 : (t == MPI_DOUBLE ? 2 : (t == MPI_LONG_DOUBLE ? 3 : (t == MPI_UNSIGNED_LONG ? 5 : 6)));
+    vt::ev("Enter").i("rank", my_rank()).i("seq", seq).i("count", count).i("type", code).i("g", 0).emit();
+    int rc = PMPI_Allreduce(s, r, count, t, op, c);
+    vt::ev("Leave").i("rank", my_rank()).i("seq", seq).i("g", 0).emit();
+    return rc;
+}
 #else
 static int my_rank() { return vt_this_rank(); }
 #endif
@@ -223,6 +235,9 @@ static void one_run(char const* ename, E const& engine, bool has_pos, int world,
             hep::mpi_callback<C>(hep::callback_mode::silent, "", T(target)), true, &pd});
         ev("SerialFinal").i("n", (long long) s.results().size()).i("text", ids().id("t:" + text_of(s))).emit();
     }
+#ifdef VT_REAL_MPI
+    real_seq = 0;
+#endif
     auto body = [&](MPI_Comm comm, int rank) {
         ectx.log = true; ectx.has_pos = has_pos; ectx.iter = 0;
         long pd = 0;
@@ -287,6 +302,7 @@ int main(int argc, char** argv)
 {
 #ifdef VT_REAL_MPI
     MPI_Init(&argc, &argv);
+    ids().hash = true;
     std::string path = std::string(argv[1]) + "." + std::to_string(my_rank());
     out().open(path.c_str());
 #else
